@@ -47,7 +47,8 @@ def run_contracts(res, contracts, all_contracts=None):
     """symbolically execute every contract's function from the current /repo tree; collect obligations"""
     eng = Engine()
     for c in (all_contracts or contracts):
-        eng.contracts[c["target"]] = c
+        if c["target"] not in eng.contracts or c.get("primary") or "name" not in c:
+            eng.contracts[c["target"]] = c
     for c in contracts:
         n0 = len(eng.obligations)
         name = c.get("name", c["target"])
